@@ -120,6 +120,37 @@ def main(tier, seed):
             rec["main_can_terminate"] = pipeline.main_can_terminate(c.prog)
         if rec["after_main_finished"]:
             run.violation("the chip keeps running / produces effects after the top-level code ended", rec)
+    # text programs outside the generator's grammar (devices and batch names built from function results);
+    # their main code never ends, so every emitted layout must be closed and execution must stay out of
+    # functions that are not called
+    import glob as _glob
+    tjobs, tmeta = [], []
+    for f in sorted(_glob.glob(str(core.VERIF / "corpus" / "c07" / "texts" / "*.py"))):
+        src = open(f).read()
+        for vn in ("default", "noinline", "tailinline", "pushpop"):
+            tjobs.append((src, pipeline.VECTORS[vn])); tmeta.append((f.split("/")[-1][:-3], vn, src))
+    titems, tkeep = [], []
+    for (nm, vn, src), r in zip(tmeta, impl.compile_many(tjobs)):
+        if "code" not in r:
+            continue
+        ents, _ = pipeline.region_entries(r)
+        if ents:
+            titems.append((r["code"], ents)); tkeep.append((nm, vn, src, r, ents))
+    try:
+        tflags = coq_closed(run, titems)
+    except core.CoqEvalError as e:
+        run.obligation_broken("closure check of text programs (model evaluation)", str(e))
+        tflags = [True] * len(titems)
+    for (nm, vn, src, r, ents), fl in zip(tkeep, tflags):
+        run.count("evaluations")
+        if not fl:
+            lines_ = r["code"].split("\n")
+            live = reachable_lines(r["code"])
+            bad_e = [e for e in ents if not _is_term(lines_[e - 1]) and (e - 1) in live]
+            if bad_e:
+                run.violation("a function region can be entered by sequential flow (layout not closed) although the main code never ends",
+                              {"kind": "closure_text", "program": nm, "option_set": vn, "source": src, "code": r["code"], "open_entries": bad_e,
+                               "line_before_entry": [lines_[e - 1].strip() for e in bad_e][:3]})
     # scripts that end and whose functions all have a single live call (calls from dead code and from
     # never-called functions do not count): with inlining on, no function body is placed after the main code,
     # so the chip must produce exactly CPython's effects and then stop
